@@ -24,7 +24,10 @@ def run(m, tier):
     results.append(guard_rules.keyword_prefix_rule(m, "C01.R14"))
     results.append(guard_rules.index_provenance_rule(m, "C01.R21"))
     from rules import two_roundtrip
-    results.append(two_roundtrip.roundtrip_rule(m, "C01.R22", floor=230))
+    results.append(two_roundtrip.roundtrip_rule(m, "C01.R22", floor=290))
+    r27 = two_roundtrip.roundtrip_rule(m, "C01.R27", samples=two_roundtrip.SAMPLES_2008, floor=24, std="f2008")
+    r27.title = "the same for Fortran 2008-only forms, interpreted with the classes of the 2008 grammar: " + r27.title
+    results.append(r27)
     from rules import reader_rules as _rr
     results.append(_rr.replace_map_table_rule(m, "C01.R23"))
     results.append(two_roundtrip.block_printer_rule(m, "C01.R24"))
